@@ -469,8 +469,20 @@ def routeRecognised (r : RouteFact) : Bool :=
 def directOK (d : DirectFact) : Bool :=
   d.conds.head? = some "r.Method == http.MethodOptions"
 
+/-- `authenticate` hands out a context in exactly two places: `Anonymous()` when no authenticator is
+configured, and the authenticator's own context on the fall-through after `if err != nil { …;
+return nil }`. Every other return is `nil`. (This is what the hand-written `authenticate` above
+assumes of the source.) -/
+def returnOK (g : GateFact) (r : ReturnFact) : Bool :=
+  r.expr = "nil" ||
+  (r.expr = "Anonymous()" && r.conds = ["h.authenticateFunc == nil"]) ||
+  (r.expr = g.ctxVar && r.conds = [] && g.ctxVar != "")
+
+def gateOK (g : GateFact) : Bool :=
+  g.callTopLevel && g.errBranchExit && g.returns.all (returnOK g)
+
 def TableOK (T : Table) : Prop :=
-  (∀ r ∈ T.routes, routeOK T r = true) ∧ (∀ d ∈ T.direct, directOK d = true)
+  (∀ r ∈ T.routes, routeOK T r = true) ∧ (∀ d ∈ T.direct, directOK d = true) ∧ gateOK T.gate = true
 
 instance (T : Table) : Decidable (TableOK T) := by unfold TableOK; infer_instance
 
